@@ -124,6 +124,26 @@ func vfRecorderSpecV(timed bool, version int) *core.Spec {
 	}
 }
 
+// The echo machine: no state at all.  Whatever it is presented, it emits one message (to nobody)
+// that names what it saw, and is back at its start node with the bindings it had: none.  A crew
+// reports no change for it - its emissions are all there is to report.
+const vfEchoMid = "echo"
+
+func vfEchoSpec() *core.Spec {
+	return &core.Spec{
+		Name: "echo",
+		Nodes: map[string]*core.Node{
+			"start": {Branches: &core.Branches{Type: "message", Branches: []*core.Branch{{Pattern: "?m", Target: "say"}}}},
+			"say": {
+				ActionSource: &core.ActionSource{Interpreter: "ecmascript", Source: `var m = _.bindings["?m"]; _.out({"id": "echo-" + ((m && typeof m === "object") ? m.id : "?"), "to": "nobody"}); return {};`},
+				Branches:     &core.Branches{Type: "bindings", Branches: []*core.Branch{{Target: "start"}}},
+			},
+		},
+	}
+}
+
+func vfEchoSource() *crew.SpecSource { return &crew.SpecSource{Inline: vfEchoSpec()} }
+
 func vfSpecSource() *crew.SpecSource { return &crew.SpecSource{Inline: vfRecorderSpec()} }
 
 // vfLogIds returns the message ids a machine has recorded.
@@ -316,6 +336,7 @@ type vfModel struct {
 	batches  []string                   // canonical emission batches (one per machine per message that emitted)
 	count    int
 	spawned  map[string]int // machines created during this cascade -> depth of the creating message
+	echo     []string       // ids of the messages presented to the stateless machine "echo", if the crew has one
 }
 
 // vfPredict mutates present/recorders when the cascade creates machines.
@@ -337,6 +358,7 @@ func vfPredict(msg map[string]interface{}, present map[string]bool, recorders ma
 	for pass := 0; pass < 2; pass++ {
 		md.seen = map[string][]string{}
 		md.batches = nil
+		md.echo = nil
 		md.count = 0
 		poisoned = map[string]bool{}
 		if len(poison) > 0 {
@@ -380,6 +402,10 @@ func vfPredict(msg map[string]interface{}, present map[string]bool, recorders ma
 				}
 			}
 			for _, mid := range vfRecipients(it.m, now) {
+				if mid == vfEchoMid && !recorders[mid] {
+					md.echo = append(md.echo, id)
+					continue
+				}
 				if !recorders[mid] && md.spawned[mid] == 0 {
 					if _, late := md.spawned[mid]; !late {
 						continue
